@@ -63,7 +63,7 @@ func c08Sig(t1, t2 []string) string {
 }
 
 func runC08(c c08Case) *vstat.Failure {
-	return vstat.Catch(func() *vstat.Failure { return runC08x(c) })
+	return vstat.CatchBounded(60*time.Second, func() *vstat.Failure { return runC08x(c) })
 }
 
 func runC08x(c c08Case) *vstat.Failure {
